@@ -1,5 +1,6 @@
 import RLV.Lemmas.Kill
 import RLV.Lemmas.KillCmds
+import RLV.Lemmas.KillMore
 /-! C16 — Yank gives back exactly what kill took (property theorems; helper lemmas live in RLV/Lemmas). -/
 namespace RLV.Props.C16
 open RLV.Core RLV.Kill
@@ -61,5 +62,27 @@ example : (match killLine { line := [97, 98, 32, 99, 100, 10, 101, 102], cur := 
     | _ => false) = true := by decide
 example : (match backwardKillWord { line := [97, 98, 32, 99, 100], cur := ⟨5, -1⟩ } with
     | .ok s1 => s1.kill == [99, 100] && s1.line == [97, 98, 32] | _ => false) = true := by decide
+
+/-- `kill-whole-line` (and `kill-buffer`, the same body) then `yank` restores the buffer: every buffer
+without NUL runes, every cursor and selection state; the command never panics. -/
+theorem kill_whole_line_then_yank_restores (s : St) (hnz : ∀ c ∈ s.line, c ≠ 0) :
+    ∃ s1, killWholeLine s = .ok s1 ∧ Restores s s1 :=
+  killWholeLine_yank s hnz
+
+/-- `kill-region` then `yank` restores the buffer: every buffer without NUL runes, every cursor — at
+either end of the region or anywhere else — and EVERY state of the selection (not active, a fixed range, a
+pending mark completed by the cursor, stale visual flags); the command never panics. The point is left
+where the region was (the repaired behaviour: 0059668). -/
+theorem kill_region_then_yank_restores (s : St) (hnz : ∀ c ∈ s.line, c ≠ 0) :
+    ∃ s1, killRegion s = .ok s1 ∧ Restores s s1 :=
+  killRegion_yank s hnz
+
+-- non-vacuity: `ab cd ef` with the region `[3, 5)` (`cd`) and the point at its END: the text is stored,
+-- the point goes to 3, yank puts it back
+example : (match killRegion { line := [97, 98, 32, 99, 100, 32, 101, 102], cur := ⟨5, -1⟩,
+                              sel := RLV.Sel.markRange [97, 98, 32, 99, 100, 32, 101, 102] {} 3 5 } with
+    | .ok s1 => s1.kill == [99, 100] && s1.line == [97, 98, 32, 32, 101, 102] && s1.cur.pos == 3 &&
+        (match yank s1 with | .ok s2 => s2.line == [97, 98, 32, 99, 100, 32, 101, 102] | _ => false)
+    | _ => false) = true := by decide
 
 end RLV.Props.C16
